@@ -168,6 +168,11 @@ def _rev3(case):
             for Ai, t in zip(A, ths):
                 R = refs.rodrigues(ah, t)
                 c.eq("exp/vector/deg/value", Ai, refs.rt(R, q - R @ q), tol, qs)
+    ok, Sm = c.lib("Twist3[2]", lambda: L.Twist3([np.asarray(S.S, dtype=float).copy(), np.array([0.0, 1.0, 0.0, 0.0, 0.0, 0.0])]))
+    if ok:
+        ok2, ip = c.lib("isprismatic/multi", lambda: Sm.isprismatic)
+        if ok2:
+            c.true("isprismatic/multi", list(map(bool, ip)) == [False, True], "isprismatic of [revolute, prismatic] gave %r" % (ip,))
     # conversion to SE3
     ok, X1 = c.lib("SE3()", S.SE3)
     if ok:
@@ -298,6 +303,20 @@ def _rev2(case):
         A = _pose(c, "SE2()", X1, L.SE2)
         if A:
             c.eq("SE2()", A[0], ref(1.0), tol, qs)
+    for frm in ("list", "array", "tuple"):
+        dths = [t * 180.0 / math.pi for t in ths]
+        ok, Xv = c.lib("exp/vector/deg", S.exp, dths if frm == "list" else (np.array(dths) if frm == "array" else tuple(dths)), "deg")
+        if ok:
+            A = _pose(c, "exp/vector/deg", Xv, L.SE2, len(ths))
+            if A:
+                for Ai, t in zip(A, ths):
+                    c.eq("exp/vector/deg/value", Ai, ref(t), tol, qs)
+    # a sequence holding this revolute twist and a prismatic one reports each element
+    ok, Sm = c.lib("Twist2[2]", lambda: L.Twist2([np.asarray(S.S, dtype=float).copy(), np.array([1.0, 0.0, 0.0])]))
+    if ok:
+        ok2, ip = c.lib("isprismatic/multi", lambda: Sm.isprismatic)
+        if ok2:
+            c.true("isprismatic/multi", list(map(bool, ip)) == [False, True], "isprismatic of [revolute, prismatic] gave %r" % (ip,))
     return c.out
 
 
